@@ -401,6 +401,47 @@ HARNESSES = [
 WITNESS = 14
 
 
+def _toggle(v):
+    return _call('support_deprecated_rabbitmq(%s)' % v,
+                 lambda p: p.encode.support_deprecated_rabbitmq(v) or 'set')
+
+
+_LADDER = [40000, {'k': 3000000000}]
+_OTHER = {'a': [40000, {'b': 3000000000}], 'z': 1}
+
+
+def _other_ok(result):
+    """The concurrent table encode may see either ladder per integer; it
+    must still be a well-formed encoding of its own argument."""
+    try:
+        r = c16events.refcodec.R(bytes.fromhex(result))
+        got = c16events.refcodec.get_table(r)
+        return r.pos == r.end and c16events.c(got) == c16events.c(
+            _OTHER)
+    except Exception:  # noqa
+        return False
+
+
+# a thread that selects a ladder and then encodes must get THAT ladder,
+# whatever another thread is in the middle of (thread 0 is judged against
+# its sequential result; thread 1 only for well-formedness)
+HARNESSES += [
+    ('toggle on; encode || nested table encode', [
+        _seq(_toggle(True), _call('field_array(ladder)', lambda p:
+                                  p.encode.field_array(_LADDER).hex())),
+        _call('field_table(other)',
+              lambda p: p.encode.field_table(_OTHER).hex())], 2, 3,
+     {'judged': [0], 'custom': {1: _other_ok}}),
+    ('toggle on; toggle off; encode || nested table encode', [
+        _seq(_toggle(True), _toggle(False),
+             _call('field_table(ladder)', lambda p: p.encode.field_table(
+                 {'v': _LADDER}).hex())),
+        _call('field_table(other)',
+              lambda p: p.encode.field_table(_OTHER).hex())], 2, 3,
+     {'judged': [0], 'custom': {1: _other_ok}}),
+]
+
+
 def reset_switch():
     lib.pamqp().encode.support_deprecated_rabbitmq(False)
 
@@ -412,6 +453,9 @@ def cold_start():
 
 def explore_schedules(ctx, h, shard, bound, cold=False):
     name, bodies = HARNESSES[h][:2]
+    opts = HARNESSES[h][4] if len(HARNESSES[h]) > 4 else {}
+    judged = opts.get('judged', list(range(len(bodies))))
+    custom = opts.get('custom', {})
     if cold:
         name += ' [cold library]'
     reset_switch()
@@ -463,7 +507,8 @@ def explore_schedules(ctx, h, shard, bound, cold=False):
                                'choices': list(x.choices)}, 'uu|uI|II',
                               outcome)
             return
-        if results != sequential:
+        if [results[t] for t in judged] != [sequential[t] for t in judged] \
+                or not all(f(results[t]) for t, f in custom.items()):
             ctx.outcome('schedule-dependent')
             ctx.violation('sched|{}|{}'.format(h, [i for i, c in
                                                    enumerate(x.choices)
@@ -547,7 +592,12 @@ def replay(case, ctx):
                               teardown=reset_switch)
         x = runner.run(case['choices'])
         results = [x.results.get(t) for t in range(len(bodies))]
-        if h != WITNESS and results != seq:
+        opts = HARNESSES[h][4] if len(HARNESSES[h]) > 4 else {}
+        judged = opts.get('judged', list(range(len(bodies))))
+        if h != WITNESS and (
+                [results[t] for t in judged] != [seq[t] for t in judged] or
+                not all(f(results[t]) for t, f in
+                        opts.get('custom', {}).items())):
             ctx.violation('sched|replay', 'harness "{}" schedule {}: {} '
                           'instead of {}'.format(name, case['choices'],
                                                  short(results, 300),
